@@ -93,3 +93,49 @@ Proof.
   unfold b_mint. destruct (Z.leb_spec acc 0); [assert (acc = 0) by lia; lia|]. cbn. unfold upd2.
   repeat match goal with |- context [Nat.eqb ?a ?b] => destruct (Nat.eqb_spec a b) end; cbn [andb]; try lia; try congruence.
 Qed.
+
+(* RepayPrincipal: total principal and the debt of the (synchronised) cdp drop by exactly the payment applied *)
+Lemma repay_tprin e s o t pd x s' u :
+  repay e s o t pd x = Ok s' u ->
+  exists cp c0 s1 c, find_cdp e s o t = Some c0 /\ get_cp e t = Some cp /\ sync_interest e s cp c0 = Ok s1 c /\
+    let paid := fst (calc_payment (cdp_debt c) (c_fees c) x) + snd (calc_payment (cdp_debt c) (c_fees c) x) in
+    tprin s' t = Z.max (tprin s t - paid) 0 /\ (forall t', t' <> t -> tprin s' t' = tprin s t') /\
+    (cdps s' (c_type c) (c_id c) = None \/
+     exists c', cdps s' (c_type c) (c_id c) = Some c' /\ cdp_debt c' = cdp_debt c - paid).
+Proof.
+  unfold repay. destruct (0 <? x); [|discriminate]. cbn [negb].
+  destruct (find_cdp e s o t) as [c0|]; [|discriminate].
+  destruct (get_cp e t) as [cp|]; [|discriminate].
+  destruct (Nat.eqb pd (d_usdx e)); [|discriminate]. cbn [negb].
+  destruct (bal s o pd <? x); [discriminate|].
+  destruct (sync_interest e s cp c0) as [s1 c| |] eqn:Es; try discriminate.
+  pose proof (sync_interest_spec _ _ _ _ _ _ Es) as (Henv & _). apply env_same_tprin in Henv.
+  destruct (calc_payment (cdp_debt c) (c_fees c) x) as [fp pp] eqn:Ecp.
+  destruct (_ && _); [discriminate|].
+  destruct (b_send s1 o (CDPM e) (d_usdx e) (fp + pp)) as [s2|] eqn:E2; [|discriminate].
+  destruct (b_burn s2 _ _ _) as [s3|] eqn:E3; [|discriminate].
+  destruct (b_burn s3 _ _ _) as [s4|] eqn:E4; [|discriminate].
+  set (c1 := with_fees (with_prin c (c_prin c - pp)) (c_fees c - fp) (c_upd c) (c_ifac c)).
+  set (s5 := set_tprin s4 _).
+  assert (T4 : tprin s4 = tprin s).
+  { rewrite (bank_only_tprin _ _ (b_burn_frame _ _ _ _ _ E4)), (bank_only_tprin _ _ (b_burn_frame _ _ _ _ _ E3)),
+      (bank_only_tprin _ _ (b_send_frame _ _ _ _ _ _ E2)). exact Henv. }
+  assert (T5 : tprin s5 t = Z.max (tprin s t - (fp + pp)) 0 /\ forall t', t' <> t -> tprin s5 t' = tprin s t').
+  { unfold s5. cbn. rewrite T4. unfold upd. rewrite Nat.eqb_refl. split; [reflexivity|].
+    intros t' Hne. destruct (Nat.eqb_spec t' t); [contradiction|reflexivity]. }
+  destruct T5 as [T5a T5b].
+  intros H. exists cp, c0, s1, c. split; [reflexivity|split; [reflexivity|split; [exact Es|]]]. cbv zeta. rewrite Ecp. cbn [fst snd].
+  destruct ((c_prin c1 =? 0) && (c_fees c1 =? 0)).
+  - destruct (return_collateral e s5 cp c1) as [s6 []| |] eqn:E6; try discriminate.
+    destruct (get_cdp e _ _ _) as [old|]; [|discriminate].
+    injection H as Hs'; subst s'.
+    assert (T6 : tprin s6 = tprin s5).
+    { unfold return_collateral in E6. eapply (ofold_inv (fun z => tprin z = tprin s5)); [|reflexivity|exact E6].
+      intros z d z' u0 P Hz. cbv beta in Hz. destruct (b_send z _ _ _ _) as [z2|] eqn:Ez; [|discriminate]. inversion Hz; subst. cbn.
+      rewrite (bank_only_tprin _ _ (b_send_frame _ _ _ _ _ _ Ez)). exact P. }
+    cbn. rewrite T6. split; [exact T5a|split; [exact T5b|]]. left.
+    unfold upd2. change (c_type c1) with (c_type c). change (c_id c1) with (c_id c). rewrite !Nat.eqb_refl. reflexivity.
+  - pose proof (update_cdp_stored _ _ _ _ _ _ _ H) as Hst.
+    apply update_cdp_env in H. destruct H as [H _]. apply env_same_tprin in H. rewrite H.
+    split; [exact T5a|split; [exact T5b|]]. right. exists c1. split; [exact Hst|]. unfold cdp_debt, c1. cbn. lia.
+Qed.
